@@ -170,8 +170,33 @@ def build_generators(plan, cfg, run, spy_log):
     return tuple(gens)
 
 
+def _apply_add_request(rp, op, run):
+    """a co-simulation user inserts a ride request directly into the state between two cranks (also before the first one)"""
+    from nrel.hive.model.request.request import Request
+    from nrel.hive.state.simulation_state import simulation_state_ops as sso
+    from returns.result import Failure
+    if op["id"] in rp.s.requests:
+        return rp
+    try:
+        req = Request.build(request_id=op["id"], origin=op["o"], destination=op["d"], road_network=rp.s.road_network,
+                            departure_time=rp.s.sim_time, passengers=1, allows_pooling=False, fleet_id=op.get("fleet"), value=float(op.get("value", 0.0)))
+        res = sso.add_request_safe(rp.s, req)
+        if isinstance(res, Failure):
+            run.stats["ext_rejected"] += 1
+            return rp
+        run.stats["ext_request_added"] += 1
+        if int(rp.s.sim_time) == 0:
+            run.probes["request_present_at_clock_zero"] += 1
+        return rp._replace(s=res.unwrap())
+    except Exception:
+        run.stats["ext_rejected"] += 1
+        return rp
+
+
 def _apply_ext(rp, op, run):
     """a co-simulation user changes a station between two cranks (public API only)"""
+    if op["what"] == "add_request":
+        return _apply_add_request(rp, op, run)
     st = rp.s.stations.get(op["station"])
     if st is None:
         return rp
@@ -222,6 +247,15 @@ def _gen_faults(run, rp, frng, key):
         else:
             val = round(frng.uniform(0, 2), 3)
         ops.append({"k": "ext", "what": what, "station": sid, "charger": cid, "value": val})
+    if rs.get("p_add_request") and frng.random() < rs["p_add_request"]:
+        cells = sorted({r["o"] for r in run.spec["requests"]} | {r["d"] for r in run.spec["requests"]} | {v["cell"] for v in run.spec["vehicles"]})
+        if cells:
+            n = run.scratch.get("ext_req_n", 0)
+            run.scratch["ext_req_n"] = n + 1
+            op = {"k": "ext", "what": "add_request", "id": "x%03d" % n, "o": frng.choice(cells), "d": frng.choice(cells), "value": frng.choice([0.0, 5.0])}
+            if run.spec.get("fleets"):
+                op["fleet"] = frng.choice(sorted(run.spec["fleets"]))
+            ops.append(op)
     if rs.get("buggify") and frng.random() < rs.get("p_fail", 0.3):
         for _ in range(frng.choice([1, 1, 2])):
             ops.append({"k": "fail", "site": frng.choice(seams.SITES), "n": frng.randint(0, rs.get("fail_depth", 8))})
